@@ -595,6 +595,9 @@ def check_pointwise(case, rec):
             # rounding level, scaled by the conditioning of the TPL difference;
             # TPLGaussian: bound of its documented first-order branch
             tol = BUDGET_ANALYTIC * c.kT * (S0_or + abs(o)) + 10.0 * e
+            if 0.0 < c.len_low < 1e-3 * float(case["spec"]["len_scale"]):
+                # the oracle's quadrature of rho cannot resolve a cut-off scale that small (its own error estimate misses it)
+                tol += 1e-6 * S0_or
             if c.cls == "TPLGaussian":
                 tol += _budget(c) * S0_or
         else:
@@ -773,7 +776,8 @@ def check_radial(case, rec):
     if off_cdf:
         cdf = _call(c, "spectral_rad_cdf", r)
         require(cdf[0] == 0.0, f"cdf(0) = {cdf[0]}", dict(tags, kind="cdf_origin"))
-        require(bool(np.all(np.diff(cdf) >= 0)), f"cdf not monotone: {cdf}", dict(tags, kind="cdf_monotone"))
+        # (adjacent floats as radii: monotone up to the rounding of the closed form)
+        require(bool(np.all(np.diff(cdf) >= -8 * np.finfo(float).eps * np.max(np.abs(cdf)))), f"cdf not monotone: {cdf}", dict(tags, kind="cdf_monotone"))
         require(bool(np.all((cdf >= 0) & (cdf <= 1))), f"cdf outside [0,1]: {cdf}", dict(tags, kind="cdf_range"))
         # cdf(r_{i+1}) - cdf(r_i) = int pdf : panels of width <= 1/len, 16-point rule
         for i in range(len(r) - 1):
